@@ -258,6 +258,30 @@ def _build(d):
                     pass
                 finally:
                     H.ARM["point"] = H.ARM["op"] = None
+            # a child is taken over by ANOTHER node through that node's own left / right setter and taken back the same
+            # way, with reads of both child tuples before, between and after: the tree is the one of the spec again,
+            # every node involved has been a donor once (a cached child tuple that a stealing setter does not reset)
+            done = 0
+            for x in nodes:
+                if done >= 2:
+                    break
+                for s in (0, 1):
+                    c = x.children[s]
+                    if c is None:
+                        continue
+                    below = set(id(n) for n in bigtree.preorder_iter(c))
+                    ys = [y for y in nodes if id(y) not in below and y is not x and any(k is None for k in y.children)]
+                    if not ys:
+                        continue
+                    y = ys[len(ys) // 2]
+                    t = 0 if y.children[0] is None else 1
+                    _ = x.children, y.children, list(bigtree.preorder_iter(nodes[0]))
+                    setattr(y, ("left", "right")[t], c)
+                    _ = x.children, y.children, list(bigtree.levelorder_iter(nodes[0]))
+                    setattr(x, ("left", "right")[s], c)
+                    _ = x.children
+                    done += 1
+                    break
     return root, nodes
 
 
